@@ -760,8 +760,12 @@ fn parent(mode: &str, seed: u64, n: usize, corpus: &str) -> (Vec<String>, usize)
         std::thread::spawn(move || { let mut buf = [0u8; 1 << 16]; loop { match so.read(&mut buf) { Ok(0) | Err(_) => { let _ = tx.send(None); break; } Ok(k) => { let _ = tx.send(Some(buf[..k].to_vec())); } } } });
         let mut pending: Vec<u8> = Vec::new();
         let mut why = String::new();
+        let mut first = true;
         loop {
-            match rx.recv_timeout(std::time::Duration::from_secs(20)) {
+            // a hang is a case that streams nothing for 30 s (120 s for the first output: the child rebuilds the case list)
+            let wait = if first { 120 } else { 30 };
+            first = false;
+            match rx.recv_timeout(std::time::Duration::from_secs(wait)) {
                 Ok(Some(b)) => { pending.extend_from_slice(&b); while let Some(p) = pending.iter().position(|&x| x == b'\n') { let l: Vec<u8> = pending.drain(..=p).collect(); lines.push(String::from_utf8_lossy(&l[..l.len() - 1]).to_string()); } }
                 Ok(None) => break,
                 Err(_) => { let _ = ch.kill(); why = "timeout".into(); break; }
